@@ -134,8 +134,8 @@ func vxStdDevUF(xs []float64) float64 { return vx.UFloat("stddev", xs...) }
 type vxSampleUF struct{ xs []float64 }
 
 func (s vxSampleUF) Weight() float64   { return float64(len(s.xs)) }
-func (s vxSampleUF) Mean() float64     { return vx.UFloat("mean", s.xs...) }
-func (s vxSampleUF) Variance() float64 { v := vx.UFloat("stddev", s.xs...); return v * v }
+func (s vxSampleUF) Mean() float64     { return Mean(s.xs) }
+func (s vxSampleUF) Variance() float64 { v := StdDev(s.xs); return v * v }
 
 // VxC04_OneSamplePaired: the paired and one-sample statistics, n-1 degrees of freedom and the tails.
 // C04: "PairedTTest and OneSampleTTest return the textbook statistic T and degrees of freedom (... n-1) ..."
@@ -159,7 +159,7 @@ func VxC04_OneSamplePaired() {
 	vx.Freeze(x1, x2)
 	res, err := PairedTTest(x1, x2, mu, alt)
 	vx.Thaw()
-	sd, m := vxStdDevUF(diff), vxMeanUF(diff)
+	sd, m := StdDev(diff), Mean(diff) // stubbed in the engine, the real functions natively
 	if sd == 0 {
 		vx.Cover("zero-variance")
 		vx.Assert(err == ErrZeroVariance && res == nil, "ErrZeroVariance when the differences have zero spread")
@@ -261,4 +261,26 @@ func VxC04_MeanCI() {
 		w := t * StdDev(xs) / math.Sqrt(float64(n))
 		vx.Assert(vx.SameBits(lo, mean-w) && vx.SameBits(hi, mean+w), "the interval is mean -/+ t*s/sqrt(n) with t the upper (1+c)/2 quantile")
 	}
+}
+
+// VxC04_PairedConstantDifference: ErrZeroVariance exactly concerns the differences: samples that
+// vary but differ by a constant have zero-variance differences.
+// C04: "return the documented errors for too-small, mismatched or zero-variance input".
+//
+//vx:mode R
+//vx:solver z3
+//vx:jobs 2
+//vx:timeout 60000
+//vx:stub mathx.BetaInc = vxBetaInc
+//vx:bound n = 2..3 values, x1 arbitrary reals, x2 = x1 + c for an arbitrary real c (differences exactly constant); mu0 arbitrary
+func VxC04_PairedConstantDifference() {
+	n := vx.Choose("n", 2, 3)
+	x1 := vx.Floats("a", n)
+	c := vx.Float("c")
+	x2 := make([]float64, n)
+	for i := range x2 {
+		x2[i] = x1[i] + c
+	}
+	res, err := PairedTTest(x1, x2, vx.Float("mu0"), LocationDiffers)
+	vx.Assert(err == ErrZeroVariance && res == nil, "paired test: ErrZeroVariance when all differences are equal, however the samples themselves vary")
 }
